@@ -372,3 +372,11 @@ mod test {
         assert_eq!(lines[0], "GET http://reddit.com/r/rust HTTP/1.1");
     }
 }
+
+#[cfg(feature = "verif-hooks")]
+impl<B> PreparedRequest<B> {
+    /// Read-only picture of the effective settings (verification hook).
+    pub fn verif_snapshot(&self) -> crate::verif::SettingsSnapshot {
+        crate::verif::snapshot(&self.base_settings)
+    }
+}
